@@ -71,5 +71,11 @@ func (s LZ4Compressor) Decode(data []byte) ([]byte, error) {
 	}
 	buf := make([]byte, uncompressedLength)
 	n, err := lz4.UncompressBlock(data[4:], buf)
-	return buf[:n], err
+	if err != nil {
+		return nil, err
+	}
+	if n != len(buf) {
+		return nil, fmt.Errorf("cassandra lz4 block decoded to %d bytes, length prefix says %d", n, uncompressedLength)
+	}
+	return buf, nil
 }
